@@ -94,7 +94,14 @@ func zzC19aConfig() {
 }
 
 // C19.b: a scheduler event (any id, including non-members and the empty id) keeps the selection a member.
+var zzDeviations = 0
+
+func zzC19bSelectDev1()   { zzDeviations = 1; zzC19bSelect() }
+func zzC19c2BacklogDev1() { zzDeviations = 1; zzC19c2Backlog() }
+func zzC19c2BacklogDev2() { zzDeviations = 2; zzC19c2Backlog() }
+
 func zzC19bSelect() {
+	vf.Deviations(zzDeviations)
 	tm, a, b := zzMembers()
 	sub := &zzSub{ch: make(chan transport.TransportID)}
 	m, err := NewTransport(TransportConfig{TransportMap: tm, InitialTransportID: "a", SchedulerMode: SchedulerModeEvent, EventScheduler: &EventScheduler{Subscriber: sub}})
@@ -259,6 +266,7 @@ func zzC19e2CloseErrors() {
 // C19.c2: a consumer that lags: every member delivers several messages before the first Read;
 // each message is returned exactly once, unchanged, in its member's order.
 func zzC19c2Backlog() {
+	vf.Deviations(zzDeviations)
 	tm, a, b := zzMembers()
 	sub := &zzSub{ch: make(chan transport.TransportID)}
 	m, err := NewTransport(TransportConfig{TransportMap: tm, InitialTransportID: "a", SchedulerMode: SchedulerModeEvent, EventScheduler: &EventScheduler{Subscriber: sub}})
